@@ -77,6 +77,8 @@ def run(pid, tier, seed, replay):
     # the blocking tail reader against appends, size and age rolls, truncations (verif hook: the reader is held in front of waitForData)
     lines2 = ctx.go_driver("server/commitlog", ["commitlog/tailwait_test.go"], "^TestVerifTailWait$", env={"VERIF_N": 150 if tier == "quick" else 3000}, tags="verif", timeout=1500)
     tcases = [l for l in lines2 if l.get("k") == "tail"]
+    for c in tcases:
+        c["blocks"] = c.get("blocks") or []
     for c, j in eval_tail(ctx, tcases)[:3]:
         ctx.tie_problems.append({"what": "correspondence Log.TailCheck.tcases_mismatches: tail-reader case %d differs from the LTS at block %d (%s)" % (c["id"], j, json.dumps(c["blocks"][j])[:300]),
                                  "first": [{"case": {"k": "tail", "id": c["id"], "cap": c["cap"], "blocks": c["blocks"][:j + 1]}}]})
